@@ -230,7 +230,7 @@ type mutSite struct {
 // degradation: pointer -> nil, slice -> nil / element -> nil / drop last,
 // map -> nil / value -> nil, string -> "", oneof -> nil / wrapper with nil payload.
 func collectMutations(v reflect.Value, path string, out *[]mutSite, depth int) {
-	if depth > 12 {
+	if depth > 40 {
 		return
 	}
 	switch v.Kind() {
@@ -262,6 +262,8 @@ func collectMutations(v reflect.Value, path string, out *[]mutSite, depth int) {
 				if f.Len() > 0 {
 					fv := f
 					*out = append(*out, mutSite{p + "=nil", func() { fv.Set(reflect.Zero(fv.Type())) }})
+					// present but empty: not nil, length 0 (a nil check does not cover it)
+					*out = append(*out, mutSite{p + "=empty", func() { fv.Set(reflect.MakeSlice(fv.Type(), 0, 0)) }})
 					*out = append(*out, mutSite{p + "=droplast", func() { fv.Set(fv.Slice(0, fv.Len()-1)) }})
 					for j := 0; j < f.Len(); j++ {
 						el := f.Index(j)
@@ -276,6 +278,7 @@ func collectMutations(v reflect.Value, path string, out *[]mutSite, depth int) {
 				if f.Len() > 0 {
 					fv := f
 					*out = append(*out, mutSite{p + "=nil", func() { fv.Set(reflect.Zero(fv.Type())) }})
+					*out = append(*out, mutSite{p + "=empty", func() { fv.Set(reflect.MakeMap(fv.Type())) }})
 					keys := f.MapKeys()
 					for _, k := range keys {
 						kk := k
@@ -334,6 +337,21 @@ func c08BaseModels() []gen.Tagged {
 			{Name: "b", Rw: ref.U(ref.U(ref.C("a")), ref.D(ref.T(), ref.C("a"))), Restr: []ref.Restriction{{Type: "user"}}},
 			{Name: "c", Rw: ref.I(ref.I(ref.C("a"), ref.C("b")), ref.T(), ref.T()), Restr: []ref.Restriction{{Type: "user"}}},
 			{Name: "p", Rw: ref.T(), Restr: []ref.Restriction{{Type: "doc"}}},
+		}}}}},
+		// every operator kind in every structural position (base of an exclusion, first and later child of a union and of an
+		// intersection) with the one direct assignment somewhere else - below a nested operator, or in the subtract position
+		{Tag: "positions", M: &ref.Model{Schema: "1.1", Types: []ref.TypeDef{{Name: "user"}, {Name: "doc", Rels: []ref.Relation{
+			{Name: "b", Rw: ref.T(), Restr: []ref.Restriction{{Type: "user"}}},
+			{Name: "c", Rw: ref.T(), Restr: []ref.Restriction{{Type: "user"}}},
+			{Name: "d1", Rw: ref.D(ref.I(ref.C("b"), ref.C("c")), ref.T()), Restr: []ref.Restriction{{Type: "user"}}},
+			{Name: "d2", Rw: ref.D(ref.U(ref.C("b"), ref.C("c")), ref.T()), Restr: []ref.Restriction{{Type: "user"}}},
+			{Name: "d3", Rw: ref.D(ref.D(ref.C("b"), ref.C("c")), ref.T()), Restr: []ref.Restriction{{Type: "user"}}},
+			{Name: "u1", Rw: ref.U(ref.I(ref.C("b"), ref.C("c")), ref.U(ref.T())), Restr: []ref.Restriction{{Type: "user"}}},
+			{Name: "u2", Rw: ref.U(ref.U(ref.C("b"), ref.C("c")), ref.I(ref.T())), Restr: []ref.Restriction{{Type: "user"}}},
+			{Name: "u3", Rw: ref.U(ref.D(ref.C("b"), ref.C("c")), ref.U(ref.C("b"), ref.T())), Restr: []ref.Restriction{{Type: "user"}}},
+			{Name: "i1", Rw: ref.I(ref.U(ref.C("b"), ref.C("c")), ref.U(ref.T())), Restr: []ref.Restriction{{Type: "user"}}},
+			{Name: "i2", Rw: ref.I(ref.I(ref.C("b"), ref.C("c")), ref.I(ref.C("c"), ref.T())), Restr: []ref.Restriction{{Type: "user"}}},
+			{Name: "i3", Rw: ref.I(ref.D(ref.C("b"), ref.C("c")), ref.D(ref.C("b"), ref.T())), Restr: []ref.Restriction{{Type: "user"}}},
 		}}}}},
 		{Tag: "small", M: &ref.Model{Schema: "1.1", Types: []ref.TypeDef{{Name: "user"}, {Name: "doc", Rels: []ref.Relation{
 			{Name: "a", Rw: ref.I(ref.C("b"), ref.T()), Restr: []ref.Restriction{{Type: "user"}}},
@@ -628,7 +646,9 @@ var cellMenu = []cellEntry{
 	{"[user, doc#x']", false, func(xn, yn, sib string) (*ref.Rewrite, []ref.Restriction) {
 		return ref.T(), []ref.Restriction{{Type: "user"}, {Type: "doc", Relation: xn}}
 	}},
-	{"x' from p or y'", false, func(xn, yn, sib string) (*ref.Rewrite, []ref.Restriction) { return ref.U(ref.TT(xn, "p"), ref.C(yn)), nil }},
+	{"x' from p or y'", false, func(xn, yn, sib string) (*ref.Rewrite, []ref.Restriction) {
+		return ref.U(ref.TT(xn, "p"), ref.C(yn)), nil
+	}},
 	{"[user, doc#x', doc#y']", false, func(xn, yn, sib string) (*ref.Rewrite, []ref.Restriction) {
 		return ref.T(), []ref.Restriction{{Type: "user"}, {Type: "doc", Relation: xn}, {Type: "doc", Relation: yn}}
 	}},
@@ -1111,7 +1131,10 @@ func c08TextLight(ctx *core.Ctx, t string) {
 func c08Run(ctx *core.Ctx) {
 	if ctx.Shard == 0 {
 		// the step instrumentation must be live
-		o := c08Call(func() (bool, error) { m, e := transformer.TransformDSLToProto("model\n  schema 1.1\ntype user\n"); return m != nil, e })
+		o := c08Call(func() (bool, error) {
+			m, e := transformer.TransformDSLToProto("model\n  schema 1.1\ntype user\n")
+			return m != nil, e
+		})
 		if o.steps < 50 {
 			ctx.Note(fmt.Sprintf("step instrumentation inactive (steps=%d)", o.steps))
 		} else {
@@ -1155,7 +1178,7 @@ func init() {
 		ID: "C08",
 		Rule: "(a) every string of <= 3 lexemes over a 38-lexeme DSL alphabet (length 3 over a 30-lexeme alphabet in quick) appended to 10 valid document prefixes, through TransformDSLToProto/JSON, TransformModularDSLToProto and as member of 1- and 2-file module sets; accepted texts continue through printer and both graph builders; " +
 			"every DSL text of the repository's shared test-data corpus with all its single mutations (each piece deleted, each of 30 lexemes inserted at each boundary; quick: for every 12th document); every string of <= 3/4 tokens over JSON and YAML token alphabets through TransformJSONStringToDSL / TransformModFile; every JSON value of two valid model documents replaced by 9 other JSON values. " +
-			"(b) fault enumeration on protobufs: every single and every pair (quick: pairs on the small base model) of degradations (pointer nil / empty, slice nil / drop / nil element, map nil / nil value / renamed key, string empty, oneof nil / nil payload, enum 0 / out of range) of three base models (one of them not DSL-expressible: direct assignment in subtract and non-first positions, nested unary operators) through printer (both options), plain graph (+Reversed, GetDOT, GetCycles, PathExists) and weighted builder. " +
+			"(b) fault enumeration on protobufs: every single and every pair (quick: pairs on the small base model) of degradations (pointer nil / empty, slice nil / empty-but-present / drop / nil element, map nil / empty-but-present / nil value / renamed key, string empty, oneof nil / nil payload, enum 0 / out of range) of four base models (two of them not DSL-expressible: every operator kind in every structural position with the direct assignment elsewhere; direct assignment in subtract and non-first positions, nested unary operators) through printer (both options), plain graph (+Reversed, GetDOT, GetCycles, PathExists) and weighted builder. " +
 			"(c) pumping: every fragment of <= 2 lexemes (thorough: + every 3rd 3-lexeme fragment) repeated n and 2n times (n = 32 / 64) in 10 insertion contexts; scaled model families through printer and both graph builders at n = 8, 16, 32, 64: four fixed shapes (computed chain, fan-in union, long restriction list, TTU cycle) and every cell family (n levels of two relations whose rewrites range over a 9 x 8 menu over the next level - computed, union / intersection / exclusion of both, direct assignment with usersets of the next level, TTU, the sibling - with the last level open or wrapped back to the first as one tuple cycle: 144 families incl. all diamond-shaped DAGs); the weighted builder additionally from every start node of its depth-first weight assignment (n <= 32 quick / 64 thorough), growth judged on the worst start node; nested pumping: open^n inner close^n for 12 open/close pairs (parentheses with and without operators on either side, doubled) x 6 inner rewrites x 4 prefixes at depth 16 and 32 (thorough 20 and 40); deterministic step counts from build-time instrumentation, growth exponent log2(S(2n)/S(n)) <= 2.5, horizon 5e7 steps. " +
 			"states = outcome classes, non-trivial = distinct accepted texts and fault names",
 		Assume: []string{
